@@ -33,6 +33,8 @@ def spec_grid(tier):
         dict(name="h_tiny", params=dict(B=64, Q=2, NREADS=-1), items=[can(1), lobj(1, 3, 48), can(2)], conts=[144]),
         # a container whose deflate stream is damaged, a non-container object at container level
         dict(name="h_badz", params=dict(B=64, Q=2, NREADS=-1, METHOD=2, LEVEL=6, BADCONT=1), items=[can(1), can(2), can(3)], conts=[48, 48, 48]),
+        # a stored container with more bytes than it declares
+        dict(name="h_surplus", params=dict(B=64, Q=2, NREADS=-1, METHOD=0, BADCONT=1, SURPLUS=7), items=[can(1), can(2), can(3)], conts=[48, 48, 48]),
         dict(name="h_junk", params=dict(B=64, Q=2, NREADS=-1, TAIL="junk"), items=[can(1)], conts=[48]),
         # allocation failure (std::bad_alloc) inside the decompressing worker
         dict(name="h_foreign", params=dict(B=64, Q=2, NREADS=-1, TAIL="foreign"), items=[can(1)], conts=[48]),
